@@ -479,7 +479,7 @@ var checks = map[string]Check{
 	},
 	"C15": {
 		Level:       "model_checking",
-		Rule:        "explicit enumeration of all histories up to depth 3 (quick) / 4 over 22 operations {ok call, 7 failure probes, proxied call with backend error, proxied call/push with backend down, secure key mismatch, auth reject, overload reject, pending call cut by a corrupt frame, unknown-route and OK replies whose write fails, push whose write fails with a transient error / end of file / closed pipe / broken pipe / connection reset}; after each history every failure probe is repeated and its (code,msg,cause) compared with the triple observed before the history in the same pristine-restored process, and every predefined status is compared field by field",
+		Rule:        "explicit enumeration of all histories up to depth 3 (quick) / 4 over 22 operations {ok call, 7 failure probes, proxied call with backend error, proxied call/push with backend down, secure key mismatch, auth reject, overload reject, pending call cut by a corrupt frame, unknown-route and OK replies whose write fails, push whose write fails with a transient error / end of file / closed pipe / broken pipe / connection reset}; after each history every failure probe is repeated and its (code,msg,cause) compared with the triple observed before the history in the same pristine-restored process, and every predefined status is compared field by field; the same comparison after every history of proxied calls through a mixer/multiclient session pool whose pooled sessions fail",
 		Assumptions: append([]string{"the predefined statuses are restored to their pristine values at the start of every execution (they are process-global), so every history starts from the documented state"}, baseAssumptions...),
 		Jobs: func(tier string) []Job {
 			d := "3"
@@ -491,7 +491,14 @@ var checks = map[string]Check{
 			if tier == "thorough" {
 				j.Shards = 16
 			}
-			return []Job{j}
+			// proxy forwarding through a mixer/multiclient session pool (failures of pooled sessions)
+			mu := sched("c19_multi", "depth=4", 0, 2)
+			mu.EnvOnly = true
+			if tier == "thorough" {
+				mu.Params = "depth=6"
+				mu.Shards = 8
+			}
+			return []Job{j, mu}
 		},
 	},
 	"C16": {
@@ -590,7 +597,7 @@ var checks = map[string]Check{
 	},
 	"C19": {
 		Level:       "model_checking",
-		Rule:        "full product (4320 configurations) {call,push} x {method served by the backend, served nowhere} x caller codec {json,plain,protobuf} x 4 body byte strings x 5 request-metadata sets (duplicate key, real-ip present/absent) x 6 backend statuses x backend failure {none, before, during forwarding} on a live client -> proxy -> backend chain (all links over raw, and again over json, pb and thrift-binary), compared with the same request sent directly to an identical backend (metamorphic oracle: body bytes, status triple, reply metadata one value per key, reply codec, backend invocation count and metadata view, real-ip injected iff absent, 502 on backend failure); plus every sequence of 4 (quick) / 6 calls and pushes with empty, short and long bodies through one proxy, each compared with the direct call and with what the backend received; plus a call/push that reaches a redial-enabled forwarder while it is reconnecting to the backend (gated so that the loss precedes the request): result equal to the direct one",
+		Rule:        "full product (4320 configurations) {call,push} x {method served by the backend, served nowhere} x caller codec {json,plain,protobuf} x 4 body byte strings x 5 request-metadata sets (duplicate key, real-ip present/absent) x 6 backend statuses x backend failure {none, before, during forwarding} on a live client -> proxy -> backend chain (all links over raw, and again over json, pb and thrift-binary), compared with the same request sent directly to an identical backend (metamorphic oracle: body bytes, status triple, reply metadata one value per key, reply codec, backend invocation count and metadata view, real-ip injected iff absent, 502 on backend failure); plus every sequence of 4 (quick) / 6 calls and pushes with empty, short and long bodies through one proxy, each compared with the direct call and with what the backend received; plus a call/push that reaches a redial-enabled forwarder while it is reconnecting to the backend (gated so that the loss precedes the request): result equal to the direct one; plus every history of depth 4 (quick) / 6 over {call, call whose backend connection is reset / ends cleanly after the backend handled it, push, backend closes the idle pooled connections} with a mixer/multiclient session pool as the proxy's forwarder: forwarded exactly once, 502 on failure, never re-sent",
 		Assumptions: append([]string{"backend statuses in the reserved connection-class range 100..199 are outside the alphabet (the plugin documents rewriting them to 502)", "quick tier: deterministic default schedule per configuration; thorough: all non-preemptive schedules within a time budget"}, baseAssumptions...),
 		Jobs: func(tier string) []Job {
 			j := sched("c19", "", 0, 8)
@@ -601,8 +608,19 @@ var checks = map[string]Check{
 			// a request that arrives while the redial-enabled forwarder is reconnecting to the backend
 			rd := sched("c19_redial", "", 0, 1)
 			rd.EnvOnly = true
-			js := []Job{j, sq, rd}
+			// the proxy forwards through a mixer/multiclient session pool: histories of calls, calls whose backend
+			// connection is lost (reset / clean end of stream) after the backend handled them, pushes, idle closes
+			mu := sched("c19_multi", "depth=4", 0, 2)
+			mu.EnvOnly = true
 			if tier == "thorough" {
+				mu.Params = "depth=6"
+				mu.Shards = 8
+			}
+			js := []Job{j, sq, rd, mu}
+			if tier == "thorough" {
+				ms := sched("c19_multi", "depth=3", 0, 8)
+				ms.Budget = 300
+				js = append(js, ms)
 				rs := sched("c19_redial", "", 0, 16)
 				rs.Budget = 300
 				js = append(js, rs)
